@@ -46,6 +46,23 @@ func registerStrings(p *Program) {
 		return -1
 	}
 
+	// bytes.Buffer: contents kept in the first slot of the struct
+	bufOf := func(v Value) *[]Value {
+		p := v.(*Value)
+		if p == nil {
+			nilDeref("method on nil *bytes.Buffer")
+		}
+		st := (*p).(Struct)
+		if b, ok := st[0].(*[]Value); ok {
+			return b
+		}
+		b := &[]Value{}
+		if old, ok := st[0].([]Value); ok {
+			*b = append(*b, old...)
+		}
+		st[0] = b
+		return b
+	}
 	nat("strings.Contains", func(m *Machine, fr *frame, args []Value) Value {
 		s, ok1 := str(args[0])
 		sub, ok2 := str(args[1])
@@ -210,6 +227,176 @@ func registerStrings(p *Program) {
 	asciiClass("unicode.IsLetter", unicode.IsLetter, [][2]int64{{'A', 'Z'}, {'a', 'z'}})
 	asciiClass("unicode.IsDigit", unicode.IsDigit, [][2]int64{{'0', '9'}})
 
+	nat("strings.TrimSuffix", func(m *Machine, fr *frame, args []Value) Value {
+		s, ok1 := str(args[0])
+		suf, ok2 := str(args[1])
+		if ok1 && ok2 {
+			return strings.TrimSuffix(s, suf)
+		}
+		if b, ok := args[0].(*BStr); ok && ok2 {
+			if len(suf) <= len(b.B) && m.Branch(matchAt(m, b, len(b.B)-len(suf), suf), "strings.TrimSuffix") {
+				return normBStr(&BStr{B: b.B[: len(b.B)-len(suf) : len(b.B)-len(suf)]})
+			}
+			return b
+		}
+		unsupported("strings.TrimSuffix on symbolic suffix")
+		return nil
+	})
+	nat("strings.CutPrefix", func(m *Machine, fr *frame, args []Value) Value {
+		s, ok1 := str(args[0])
+		pre, ok2 := str(args[1])
+		if ok1 && ok2 {
+			a, f := strings.CutPrefix(s, pre)
+			return Tuple{a, f}
+		}
+		if b, ok := args[0].(*BStr); ok && ok2 {
+			if m.Branch(matchAt(m, b, 0, pre), "strings.CutPrefix") {
+				return Tuple{normBStr(&BStr{B: b.B[len(pre):]}), true}
+			}
+			return Tuple{b, false}
+		}
+		unsupported("strings.CutPrefix on symbolic prefix")
+		return nil
+	})
+	nat("strings.CutSuffix", func(m *Machine, fr *frame, args []Value) Value {
+		s, ok1 := str(args[0])
+		suf, ok2 := str(args[1])
+		if ok1 && ok2 {
+			a, f := strings.CutSuffix(s, suf)
+			return Tuple{a, f}
+		}
+		if b, ok := args[0].(*BStr); ok && ok2 {
+			if len(suf) <= len(b.B) && m.Branch(matchAt(m, b, len(b.B)-len(suf), suf), "strings.CutSuffix") {
+				return Tuple{normBStr(&BStr{B: b.B[: len(b.B)-len(suf) : len(b.B)-len(suf)]}), true}
+			}
+			return Tuple{b, false}
+		}
+		unsupported("strings.CutSuffix on symbolic suffix")
+		return nil
+	})
+	// functions that are executed natively when every argument is concrete
+	concrete1 := func(name string, f func(string) string) {
+		nat(name, func(m *Machine, fr *frame, args []Value) Value {
+			if s, ok := str(args[0]); ok {
+				return f(s)
+			}
+			unsupported(name + " on symbolic string")
+			return nil
+		})
+	}
+	concrete1("strings.TrimSpace", strings.TrimSpace)
+	concrete1("strings.ToUpper", strings.ToUpper)
+	concrete1("strings.Clone", func(s string) string { return s })
+	concrete2 := func(name string, f func(a, b string) Value) {
+		nat(name, func(m *Machine, fr *frame, args []Value) Value {
+			a, ok1 := str(args[0])
+			b, ok2 := str(args[1])
+			if ok1 && ok2 {
+				return f(a, b)
+			}
+			unsupported(name + " on symbolic string")
+			return nil
+		})
+	}
+	concrete2("strings.Trim", func(a, b string) Value { return strings.Trim(a, b) })
+	concrete2("strings.TrimLeft", func(a, b string) Value { return strings.TrimLeft(a, b) })
+	concrete2("strings.TrimRight", func(a, b string) Value { return strings.TrimRight(a, b) })
+	concrete2("strings.LastIndex", func(a, b string) Value { return int64(strings.LastIndex(a, b)) })
+	concrete2("strings.Count", func(a, b string) Value { return int64(strings.Count(a, b)) })
+	concrete2("strings.ContainsAny", func(a, b string) Value { return strings.ContainsAny(a, b) })
+	concrete2("strings.IndexAny", func(a, b string) Value { return int64(strings.IndexAny(a, b)) })
+	concrete2("strings.Compare", func(a, b string) Value { return int64(strings.Compare(a, b)) })
+	nat("strings.ReplaceAll", func(m *Machine, fr *frame, args []Value) Value {
+		a, ok1 := str(args[0])
+		b, ok2 := str(args[1])
+		c, ok3 := str(args[2])
+		if ok1 && ok2 && ok3 {
+			return strings.ReplaceAll(a, b, c)
+		}
+		if bs, ok := args[0].(*BStr); ok && ok2 && ok3 && b != "" {
+			var out []Value
+			pos := 0
+			for pos < len(bs.B) {
+				if m.Branch(matchAt(m, bs, pos, b), "strings.ReplaceAll") {
+					for k := 0; k < len(c); k++ {
+						out = append(out, uint64(c[k]))
+					}
+					pos += len(b)
+					continue
+				}
+				out = append(out, bs.B[pos])
+				pos++
+			}
+			return normBStr(&BStr{B: out})
+		}
+		unsupported("strings.ReplaceAll on symbolic pattern")
+		return nil
+	})
+	nat("strings.Repeat", func(m *Machine, fr *frame, args []Value) Value {
+		if a, ok := str(args[0]); ok {
+			return strings.Repeat(a, int(asInt64(m.concretize(args[1], "Repeat"))))
+		}
+		unsupported("strings.Repeat on symbolic string")
+		return nil
+	})
+	nat("strings.SplitN", func(m *Machine, fr *frame, args []Value) Value {
+		a, ok1 := str(args[0])
+		b, ok2 := str(args[1])
+		if ok1 && ok2 {
+			var out []Value
+			for _, x := range strings.SplitN(a, b, int(asInt64(m.concretize(args[2], "SplitN")))) {
+				out = append(out, x)
+			}
+			return out
+		}
+		unsupported("strings.SplitN on symbolic string")
+		return nil
+	})
+	nat("strings.LastIndexByte", func(m *Machine, fr *frame, args []Value) Value {
+		a, ok1 := str(args[0])
+		c, ok2 := args[1].(uint64)
+		if ok1 && ok2 {
+			return int64(strings.LastIndexByte(a, byte(c)))
+		}
+		unsupported("strings.LastIndexByte on symbolic string")
+		return nil
+	})
+	// strings.Builder: contents kept in the first slot
+	nat("(*strings.Builder).WriteString", func(m *Machine, fr *frame, args []Value) Value {
+		b := bufOf(args[0])
+		bs, ok := toBStr(args[1])
+		if !ok {
+			unsupported("Builder.WriteString of abstract string")
+		}
+		*b = append(*b, bs.B...)
+		return Tuple{int64(len(bs.B)), Iface{}}
+	})
+	nat("(*strings.Builder).WriteByte", func(m *Machine, fr *frame, args []Value) Value {
+		b := bufOf(args[0])
+		*b = append(*b, args[1])
+		return Iface{}
+	})
+	nat("(*strings.Builder).WriteRune", func(m *Machine, fr *frame, args []Value) Value {
+		b := bufOf(args[0])
+		r := asInt64(m.concretize(args[1], "WriteRune"))
+		for _, c := range []byte(string(rune(r))) {
+			*b = append(*b, uint64(c))
+		}
+		return Tuple{int64(len(string(rune(r)))), Iface{}}
+	})
+	nat("(*strings.Builder).String", func(m *Machine, fr *frame, args []Value) Value {
+		return normBStr(&BStr{B: append([]Value{}, *bufOf(args[0])...)})
+	})
+	nat("(*strings.Builder).Len", func(m *Machine, fr *frame, args []Value) Value {
+		return int64(len(*bufOf(args[0])))
+	})
+	nat("(*strings.Builder).Grow", func(m *Machine, fr *frame, args []Value) Value { return nil })
+	nat("(*strings.Builder).Reset", func(m *Machine, fr *frame, args []Value) Value {
+		b := bufOf(args[0])
+		*b = nil
+		return nil
+	})
+
 	nat("strings.Join", func(m *Machine, fr *frame, args []Value) Value {
 		sep, ok := str(args[1])
 		if !ok {
@@ -285,23 +472,6 @@ func registerStrings(p *Program) {
 		return nil
 	})
 
-	// bytes.Buffer: contents kept in the first slot of the struct
-	bufOf := func(v Value) *[]Value {
-		p := v.(*Value)
-		if p == nil {
-			nilDeref("method on nil *bytes.Buffer")
-		}
-		st := (*p).(Struct)
-		if b, ok := st[0].(*[]Value); ok {
-			return b
-		}
-		b := &[]Value{}
-		if old, ok := st[0].([]Value); ok {
-			*b = append(*b, old...)
-		}
-		st[0] = b
-		return b
-	}
 	nat("(*bytes.Buffer).WriteByte", func(m *Machine, fr *frame, args []Value) Value {
 		b := bufOf(args[0])
 		*b = append(*b, args[1])
